@@ -26,7 +26,7 @@ Match(r) == /\ ~r.obs.raised /\ exists' = PEx(r) /\ value' = PVal(r) /\ level' =
             /\ (r.act.op = "express" => obs'.config = Fn(r.obs.config))
 Tg(r) == r.act.g
 Clauses == {"Immutable", "HashFollowsValues", "RefusalsLogged", "ChangesLogged", "ParentUntouched", "ChildDiffers", "ExpressExact",
-            "RollbackRestores", "Independent", "NoRaise"}
+            "RollbackRestores", "Independent", "ReplicaRefusalsLogged", "NoRaise"}
 Holds(c, r) ==
   CASE c = "Immutable" -> \A g \in M!G, n \in Genes : (exists[g] /\ r.post.exists[g] /\ r.post.value[g][n] # value[g][n]) =>
                              \/ (r.act.op \in {"mutate", "rollback", "readd"} /\ Tg(r) = g /\ M!Auth(n, r.post.value[g][n]))
@@ -44,6 +44,10 @@ Holds(c, r) ==
                                 lastOld[Tg(r)][r.act.n] # NoVal /\ r.post.value[Tg(r)][r.act.n] = lastOld[Tg(r)][r.act.n]
     [] c = "Independent" -> r.act.op # "replicate" => \A g \in M!G \ {Tg(r)} : (exists[g] /\ r.post.exists[g]) =>
                                 PVal(r)[g] = value[g] /\ PLev(r)[g] = level[g] /\ r.post.hash[g] = hashv[g]
+    [] c = "ReplicaRefusalsLogged" -> r.act.op = "replicate" =>       \* every refused replication mutation is in the child's log as unapproved, every applied one as approved
+                                LET ms == Fn(r.act.muts) IN
+                                /\ r.obs.clog - r.obs.cappr >= Cardinality({n \in DOMAIN ms : ~M!Auth(n, ms[n])})
+                                /\ r.obs.cappr <= Cardinality({n \in DOMAIN ms : M!Auth(n, ms[n])})
     [] c = "NoRaise" -> ~r.obs.raised
 Conform(k) == LET r == E[k] IN DAct(r.act) /\ Match(r) /\ drift' = FALSE
 Resync(k) ==
